@@ -11,6 +11,7 @@
 use std::io::BufRead;
 
 mod util;
+mod c07;
 mod c09;
 mod circuits;
 mod c05;
@@ -21,6 +22,9 @@ mod recxof;
 mod prio3rec;
 mod c13;
 mod c20;
+
+#[global_allocator]
+static GLOBAL: c07::Counting = c07::Counting;
 
 fn main() {
     let args: Vec<String> = std::env::args().skip(1).collect();
@@ -46,6 +50,8 @@ fn main() {
         ("c10", "big") => c10::big_verdicts(stdin_lines()),
         ("c11", "prng") => c11::prng(stdin_lines()),
         ("c11", "xof") => c11::xof(rest, stdin_lines()),
+        ("c07", "replay") => c07::replay(stdin_lines()),
+        ("c07", "fuzz") => c07::fuzz(rest, stdin_lines()),
         ("c12", "replay") => c12::replay(rest[0].parse().unwrap(), stdin_lines()),
         (p, m) => {
             eprintln!("unknown property/mode {p} {m}");
